@@ -4,10 +4,10 @@ func init() {
 	props["C03"] = propInfo{
 		level:     "exploration",
 		quickRuns: 8000, chunk: 1, thoroughS: 600, thoroughMax: 2000000,
-		rule: "run i draws from splitmix64(VERIF_SEED, C03, i): mode (60% scheduled run of 2-4 tasks on distinct pool documents under a seeded (task, quantum) schedule; 30% single-task call history of 2-6 operations; 10% one operation under a seeded map-iteration order), documents from a seeded pool (PDF from the independent writer, content streams incl. operand-only / mid-operand / failing inputs, HTML), operations from the public entry points. A run is non-trivial when it had at least one context switch (scheduled), more than one operation (history) or a non-identity map order; distinct = distinct hash of the (from-task, to-task, site) sequence at context switches together with the task programs, or distinct (operation list, map seed).",
+		rule: "run i draws from splitmix64(VERIF_SEED, C03, i): mode (60% scheduled run of 2-4 tasks on distinct pool documents under a seeded (task, quantum) schedule; 30% single-task call history of 2-6 operations; 10% one operation under a seeded map-iteration order), documents from a seeded pool that changes every 200 runs (PDF from the independent writer in all its layouts, PDFs and office packages with one fault of the C02 catalogue, content streams incl. operand-only / mid-operand / failing inputs, HTML incl. pages whose class names come in several spellings, DOCX, XLSX, PPTX, ODT, EPUB), operations from the public entry points, incl. the same call repeated on one reader / one configured extractor / one chunk collection / one format reader, and an extractor asked again after a failed open. A run is non-trivial when it had at least one context switch (scheduled), more than one operation (history) or a non-identity map order; distinct = distinct hash of the (from-task, to-task, site) sequence at context switches together with the task programs, or distinct (operation list, map seed).",
 		assume: []string{
 			"solo references are computed by this worker binary in a fresh child process, twice (two map orders)",
-			"context switches happen only at instrumented points (function entries, loop iterations, accesses to package-level variables); state shared through pointers that were copied out of package variables is seen only when it changes an output",
+			"context switches happen only at instrumented points (function entries, loop iterations, statement boundaries, accesses to package-level variables incl. the moment after a deferred one); a task is not switched out while it holds a sync.Mutex / RWMutex or runs inside sync.Once.Do; code of dependencies is not instrumented, so a call into it is atomic; state shared through pointers that were copied out of package variables is seen only when it changes an output",
 			"concurrent use of one extractor by two tasks is outside the statement and is not generated",
 		},
 		simulated: []string{"caller tasks and the scheduler that interleaves them", "map iteration order", "file images and their producer (independent PDF writer, content-stream and HTML generators)"},
